@@ -18,6 +18,13 @@ if [ -x "harness/$lc/run.sh" ]; then
   "harness/$lc/run.sh" "$TIER" "$@"
   exit $?
 fi
+if [ -d "harness/$lc/_child" ]; then
+  go build -o "$SCRATCH/vchild" ./cmd/vchild || { echo "CHECK-ERROR: build of vchild failed" >&2; exit 2; }
+  if [ ! -f "harness/$lc/main.go" ]; then
+    "$SCRATCH/vchild" "harness/$lc" "$TIER" "$@"
+    exit $?
+  fi
+fi
 if ! go build -o "$SCRATCH/$lc" "./harness/$lc" 2> "$SCRATCH/build.log"; then
   cat "$SCRATCH/build.log" >&2
   echo "CHECK-ERROR: build of harness/$lc failed" >&2
